@@ -441,9 +441,10 @@ def call_impl(it):
     case, sol, mode = it["case"], it["sol"], it["mode"]
     try:
         if mode == "plain":
-            out = build_output(case, sol, float_inf=it.get("float_inf", False), force_plain=True)
+            out = build_output(case, sol, float_inf=it.get("float_inf", False), force_plain=True, present="auto")
         else:
-            out = build_output(case, sol, ordered=(mode == "ordered"), float_inf=it.get("float_inf", False))
+            out = build_output(case, sol, ordered=(mode == "ordered"), float_inf=it.get("float_inf", False),
+                               present="auto")
         events = [out.node_event(n).name for n in out.input.object_tree.traverse("preorder")]
         if mode == "plain":
             total = enc_cost(out.cost())
